@@ -73,7 +73,11 @@ theorem step_inv (cfg : TbCfg) (s : State) (tok : Token) (h : Inv s) :
     | .pi t d => exact ⟨_, rfl, by unfold State.appendDoc; split <;> simp [Inv, hp, ho, hl]⟩
     | .chars cs => simp only []; split <;> exact ⟨_, rfl, by simp [Inv, hp, ho, hl]⟩
     | .eof => exact ⟨_, rfl, by simp [Inv, Bal, ho, hl]⟩
-    | .doctype n p sy => exact ⟨_, rfl, by unfold State.appendDoc; split <;> simp [Inv, hp, ho, hl]⟩
+    | .doctype n p sy =>
+      simp only []
+      split
+      · exact ⟨_, rfl, by simp [Inv, hp, ho, hl]⟩
+      · exact ⟨_, rfl, by unfold State.appendDoc; split <;> simp [Inv, hp, ho, hl]⟩
     | .nullChar => exact ⟨_, rfl, by simp [Inv, hp, ho, hl]⟩
   | .main =>
     simp only [Inv, hp] at h
@@ -321,8 +325,11 @@ theorem step_sim (cfg : TbCfg) (s : State) (w : Where) (tok : Token) (hs : Sim s
       exact ⟨_, .prolog, [], rfl, by unfold State.appendDoc; split <;> exact ⟨hp, ho, hns⟩,
         by unfold State.appendDoc; split <;> simp, by intro rest; simp [resolve]⟩
     | .doctype a b c =>
-      exact ⟨_, .prolog, [], rfl, by unfold State.appendDoc; split <;> exact ⟨hp, ho, hns⟩,
-        by unfold State.appendDoc; split <;> simp, by intro rest; simp [resolve]⟩
+      simp only []
+      split
+      · exact ⟨_, .prolog, [], rfl, ⟨hp, ho, hns⟩, by simp, by intro rest; simp [resolve]⟩
+      · exact ⟨_, .prolog, [], rfl, by unfold State.appendDoc; split <;> exact ⟨rfl, ho, hns⟩,
+          by unfold State.appendDoc; split <;> simp, by intro rest; simp [resolve]⟩
     | .chars cs =>
       simp only []
       split
